@@ -1165,8 +1165,7 @@ def receiveDecoded (K : Crypto) (message : Bytes) : M (Option Bytes × List Byte
   if let some e := r then return (none, [], some e)
   let r ← tryCatch (do let x ← parseMessageHeader message; pure (Except.ok x)) (fun e => pure (Except.error e))
   match r with
-  | .error .otherInstance => return (none, [], none)
-  | .error e => return (none, [], some e)
+  | .error e => return (none, [], some e)     -- including errReceivedMessageForOtherInstance (handled by receiveUnit)
   | .ok (header, body) =>
     let msgType := (header.getD 2 0).toNat
     if msgType = msgTypeData then receiveDataMessage K header body
@@ -1294,10 +1293,39 @@ def receiveUnit (K : Crypto) : Nat → Bytes → Bool → M RecvResult
       | none => finish none [] (some .invalidMessage) true
       | some decoded =>
         let (p, ts, err) ← receiveDecoded K decoded
-        finish p ts err true
+        -- repaired code: a message for another instance is ignored completely (pending fragments kept)
+        if err == some .otherInstance then finish p ts none false
+        else finish p ts err true
 
 /-- Conversation.Receive -/
 def receive (K : Crypto) (m : Bytes) : M RecvResult := receiveUnit K (m.length + 2) m true
+
+/-- ExtractInstanceTags (instance_tags.go, repaired): (ours = receiver tag, theirs = sender tag) -/
+def extractInstanceTags (m : Bytes) : Option (Nat × Nat) :=
+  if hasPrefix m (strBytes "?OTR:") then
+    match decodeEnvelope m with
+    | none => none
+    | some msg =>
+      if msg.length < 11 then none else
+      match extractShort msg with
+      | some (3, _) =>
+        match extractWord (msg.drop 3) with
+        | none => none
+        | some (sender, r1) =>
+          match extractWord r1 with
+          | none => none
+          | some (receiver, _) => some (receiver, sender)
+      | _ => none
+  else if hasPrefix m (strBytes "?OTR|") then
+    if m.length < 23 then none else
+    let headerPart := (splitOn 44 (m.take 23)).headD []
+    match splitOn 124 headerPart with
+    | _ :: s :: r :: _ =>
+      match parseItag s, parseItag r with
+      | some sender, some receiver => some (receiver, sender)
+      | _, _ => none
+    | _ => none
+  else none
 
 /-! ### Send, End, extra key (send.go, conversation.go, extra_key.go) -/
 
